@@ -32,19 +32,20 @@ def used(case, r):
     return r["pepv"] is None or float(Fraction(r["pepv"])) <= cut
 
 
-def gen_case(rng, nexp, npep, ns=0, consistent=True, graph=None, minr=None, stab=None):
+def gen_case(rng, nexp, npep, ns=0, consistent=True, graph=None, minr=None, stab=None, miss=None, clean=False, prefix="PEP",
+             samples=None):
     b = [rng.choice([1, 2, 3, 5, 8, 16, 40, 100]) for _ in range(nexp * max(1, ns))]
     a = [rng.choice([1, 3, 4, 7, 10, 32]) for _ in range(npep)]
-    miss = rng.choice([0.0, 0.2, 0.4, 0.6])
+    miss = rng.choice([0.0, 0.2, 0.4, 0.6]) if miss is None else miss
     precs = []
     for p in range(npep):
-        name = "PEP" + "ACDEFGHIKL"[p % 10] + ("(ox)" if p >= 10 else "") + "K"
+        name = prefix + "ACDEFGHIKL"[p % 10] + ("(ox)" if p >= 10 else "") + "K"
         for ch in ([2, 3] if rng.random() < 0.3 else [2]):
             fracs = ["1", "2"] if rng.random() < 0.25 else ["1"]
-            for s in range(nexp):
+            for s in (range(nexp) if samples is None else samples):
                 if rng.random() < miss:
                     continue
-                cell_bad = rng.random() < 0.1
+                cell_bad = rng.random() < 0.1 and not clean
                 for frac in (fracs if consistent or rng.random() < 0.7 else ["1"]):
                     noise = 1 if consistent else rng.choice([1, 1, 1, 2, 3, 5])
                     base = a[p] * noise * (1 if frac == "1" else 2) * (1 if ch == 2 else 4)
@@ -58,7 +59,7 @@ def gen_case(rng, nexp, npep, ns=0, consistent=True, graph=None, minr=None, stab
                     if rng.random() < 0.15 and not (consistent and pepv in PEPV[3:]):      # a second, weaker feature of the same precursor in the same fraction
                         precs.append({"pep": name, "charge": ch, "exp": s, "frac": frac, "int": repr(x / 2), "pepv": rng.choice(PEPV[:3]),
                                       "silac": [repr(float(v) / 2) for v in sil]})
-                    if rng.random() < 0.05:
+                    if rng.random() < 0.05 and not clean:
                         precs.append({"pep": name, "charge": ch, "exp": s, "frac": "3", "int": rng.choice(["nan", "0.0"]),
                                       "pepv": rng.choice(PEPV[:3]), "silac": ["0.0"] * ns})
     rng.shuffle(precs)
@@ -244,6 +245,17 @@ class StagedSuite(Suite):
         for k in range(len(final)):
             if (final[k] > 0) != (k in nodes):
                 return "lfq-unlinked-sample-not-zero"
+        if case["ns"] == 0:
+            # the ratio edges are exactly the sample pairs with enough own and shared peptides that the FastLFQ graph links
+            rows = cell_matrix(case["precs"], float(Fraction(case["cut"])), len(case["names"]))
+            n = len(case["names"])
+            valid = [k for k in range(n) if sum(1 for v in rows.values() if v[k] > 0) >= case["minr"]]
+            active = case["graph"] is not None and len(valid) >= case["min_samples"]
+            gset = {tuple(sorted(e)) for e in (case["graph"] or [])}
+            want = {(i, j) for a, i in enumerate(valid) for j in valid[a + 1:]
+                    if (not active or (i, j) in gset) and sum(1 for v in rows.values() if v[i] > 0 and v[j] > 0) >= case["minr"]}
+            if want != set(logs):
+                return "lfq-ratio-edges-are-not-the-linked-pairs-with-enough-shared-peptides"
         # least squares: normal equations at the answer
         x = {k: math.log(final[k]) for k in nodes}
         for k in nodes:
@@ -366,6 +378,18 @@ class ColumnsSuite(Suite):
 
     def gen(self, rng, tier):
         for _ in range(core.tier_n(tier, 60, 600)):
+            if rng.random() < 0.35:
+                # two batches of samples with batch-specific background peptides: nearest neighbours and the average-degree fill stay
+                # inside the batches, so the pruned graph needs its connectivity repair; the target group is consistent and complete
+                k = rng.randint(3, 6)
+                nexp = 2 * k
+                tgt = gen_case(rng, nexp, rng.randint(2, 4), consistent=True, miss=0.0, clean=True, prefix="TGT")
+                bga = gen_case(rng, nexp, rng.randint(4, 8), consistent=True, miss=0.0, clean=True, prefix="BGA", samples=range(0, k))
+                bgb = gen_case(rng, nexp, rng.randint(4, 8), consistent=True, miss=0.0, clean=True, prefix="BGB", samples=range(k, nexp))
+                yield {"groups": [tgt["precs"], bga["precs"], bgb["precs"]], "names": tgt["names"], "cut": "1/64", "minr": rng.choice([1, 2]),
+                       "stab": False, "fast": True, "min_nb": rng.randint(1, 2), "avg_nb": rng.randint(2, 3), "min_samples": 2,
+                       "seed": rng.randint(0, 10 ** 9), "targets": [{"group": 0, "b": tgt["b"]}]}
+                continue
             nexp = rng.randint(3, 14)
             groups = [gen_case(rng, nexp, rng.randint(1, 6), consistent=rng.random() < 0.5) for _ in range(rng.randint(2, 4))]
             names = groups[0]["names"]
@@ -450,6 +474,10 @@ class ColumnsSuite(Suite):
             return "lfq-columns-differ-from-per-group-result"
         if any(g != base["graphs"][0] for g in base["graphs"]):
             return "lfq-graph-differs-between-groups"
+        for t in case.get("targets", []):
+            cols, b = base["columns"][t["group"]], t["b"]
+            if not all(x > 0 for x in cols) or any(abs(math.log(cols[i] / cols[0]) - math.log(b[i] / b[0])) > 1e-3 for i in range(len(b))):
+                return "lfq-not-proportional-on-consistent-data"
         if out["renamed"]["columns"] != base["columns"]:
             return "lfq-depends-on-experiment-names"
         for a, b in zip(out["reordered"]["columns"], base["columns"]):
